@@ -1,4 +1,4 @@
-package streams
+package c12
 
 import (
 	"bytes"
